@@ -175,6 +175,11 @@ func main() {
 		{"image/svg+xml", "svg", []byte(`<?xml version="1.0"?><svg xmlns="http://www.w3.org/2000/svg" version="1.1" x="0" y="0" width="100px"><!-- c --><g fill="#FF0000" style="stroke: #000000"><path d="M 100 100 L 300 100 L 200 300 z M1e2 5e-1 A 5 5 0 0 1 10 10"/><rect x="0.0" width="10.50"/></g></svg>`)},
 		{"text/xml", "xml", []byte(`<?xml version="1.0"?><a  b = "c &amp; d" ><![CDATA[ x < y ]]>  <e>  text  </e> <!-- c --><f></f></a>`)},
 		{"text/asp", "asp", []byte(`<p> <% x %>  text <b> y </b></p>`)},
+		// path data whose first command is not a moveto, next to paths that end in curves: any per-document state of the path
+		// shortener (current point, control points) that survived from another document shows in the output
+		{"image/svg+xml", "svg-nomove-c", []byte(`<svg xmlns="http://www.w3.org/2000/svg"><path d="C-2-2 4 4 5 5"/><path d="Q-3 -3 4 4"/><path d="T4 4"/><path d="S1 1 2 2"/></svg>`)},
+		{"image/svg+xml", "svg-curves", []byte(`<svg xmlns="http://www.w3.org/2000/svg"><path d="M0 0C1 1 2 2 3 3S4 4 5 5Q6 6 7 7T8 8"/><path d="M10 10c1 1 2 2 3 3"/></svg>`)},
+		{"image/svg+xml", "svg-nomove-l", []byte(`<svg xmlns="http://www.w3.org/2000/svg"><path d="l1 1h2v2"/><path d="t1 1"/><path d="s1 1 2 2"/></svg>`)},
 		{"text/html", "bad-js", []byte(`<script>{</script><p>x`)},
 		{"text/unknown", "unknown", []byte(`whatever`)},
 	}
